@@ -16,14 +16,15 @@ PROPS = {
         "assumptions": RUN_ASSUME,
     },
     "C01": {
-        "test": "TestC01", "binary": "plain", "level": "exploration",
+        "test": "TestC01", "binary": "sched", "level": "exploration",
         "rule": "rapid-generated programs (live profile: 1-8 steps or wide fan-in of 2-40 producers into one output, outcomes incl. "
                 "crash / deploy failure / never-ending steps, foreach, tags) run under a 10 s watchdog; oracle = returns exactly one "
                 "declared output or an error, no hang (two goroutine dumps 1 s apart with identical blocked engine frames), promptness "
                 "when the reference says nothing is producible (every generated plugin step has a 300 ms closure timeout, DESIGN 13.3). In an "
                 "eighth of the cases the motif 'a stage output becomes impossible': a victim ending in one of 9 ways (success, error / alt output, "
                 "crash, malformed output, failed deployment, crash while starting through a write-refusing connection or a schema mismatch, disabled) "
-                "x a follower whose wait_for needs one of 8 stage outputs of the victim x a never-ending bystander. Cases of open finding K14 are "
+                "x a follower whose wait_for needs one of 8 stage outputs of the victim x a never-ending bystander. A quarter of the cases runs under injected scheduling delays (1-3 schedule points held "
+                "5-40 ms on their first 1-3 passes). Cases of open finding K14 are "
                 "recognised with a second, strict reference and tamed (counted). non-trivial = >=2 steps and (a non-success outcome or fan-in >= 21)",
         "quick": {"cases": 1200, "shards": 12, "shrinktime": "40s"},
         "thorough": {"cases": 20000, "shards": 16, "shrinktime": "180s", "timeout_s": 3300},
@@ -224,7 +225,7 @@ PROPS = {
         "rule": "(1) single-site sweep: for every schedule point the instrumenter inserts into workflow.go and the two providers (lock, unlock, "
                 "channel send / receive, select and wake-up, wait-group, cancel, goroutine start, entry of every run-loop / running-step method; "
                 "~285 sites) a delay longer than the fallback detector's 3 x 10 ms window - 60 ms on the first 3 passes, 60 ms on the last pass (sites "
-                "passed more than 3 times) and 40 ms on every pass (4-12 passes); pairs whose motif never passes the site are skipped - on each of 14 canonical "
+                "passed more than 3 times) and 40 ms on every pass (4-12 passes); pairs whose motif never passes the site are skipped - on each of 15 canonical "
                 "workflows whose meaning fixes one result (single, chain, wait_for, enabled from upstream, deploy expression, diamond, failing "
                 "prerequisite, crash, deploy failure, disabled + or-disabled, one-of consumer, wait-optional with failing source, foreach, nested "
                 "foreach); both tiers visit all sites (exhaustive over sites x motifs x delay variants); the tiers differ in the number of random plans. (2) rapid: random deterministic "
